@@ -46,6 +46,21 @@ def run_one(m):
     finally:
         shutil.rmtree(tmp, ignore_errors=True)
 
+
+def trim_go_cache(limit_gb=20):
+    """Scratch copies used to fill the Go build cache (one set of export data per scratch path) until the disk was
+    full; the loader now builds with -trimpath, which makes the entries path-independent. Safety valve all the same."""
+    try:
+        out = subprocess.run(["go", "env", "GOCACHE"], capture_output=True, text=True).stdout.strip()
+        if not out or not os.path.isdir(out):
+            return
+        kb = int(subprocess.run(["du", "-sk", out], capture_output=True, text=True).stdout.split()[0])
+        if kb > limit_gb * 1024 * 1024:
+            subprocess.run(["go", "clean", "-cache"], capture_output=True)
+    except Exception:
+        pass
+
+
 def main():
     want = set(sys.argv[1:])
     muts = []
@@ -64,6 +79,7 @@ def main():
         if st in ("MISSED", "broken"):
             bad += 1
         print("selftest %-8s %-4s %-28s %s" % (st, m["property"], m["id"], why if st != "caught" else ""))
+    trim_go_cache()
     print("selftest summary: " + " ".join("%s=%d" % kv for kv in sorted(counts.items())))
     sys.exit(1 if bad else 0)
 
